@@ -23,7 +23,7 @@ PLAN = {'quick': {'gen': 8}, 'thorough': {'gen': 16, 'tests': 1, 'docs': 1}}
 REQUIRED_BUCKETS = ['range:identical', 'range:nested', 'range:overlap', 'range:disjoint', 'grid:uniform', 'grid:nonuniform',
                     'op:add', 'op:subtract', 'op:multiply', 'op:divide', 'op:power', 'sampling:min', 'sampling:left',
                     'sampling:right', 'sampling:float', 'fill:0', 'fill:nonzero', 'unit:nm', 'unit:um', 'unit:m',
-                    'unit:angstrom', 'unit:mixed', 'scalar', 'vector', 'method:quadratic', 'method:cubic', 'blackbody', 'density', 'update-sequence']
+                    'unit:angstrom', 'unit:mixed', 'scalar', 'vector', 'method:quadratic', 'method:cubic', 'blackbody', 'density', 'update-sequence', 'values:integer']
 REQUIRED_ANCHORS = ['probe:Spectrum._ufunc', 'anchor:_interp_common', 'anchor:_sampling', 'anchor:Spectrum.sample']
 REQUIRED_ORACLES = ['grid', 'value=op(interp)', 'new-object', 'commutative', 'unit-agnostic', 'operands-physically-unchanged',
                     'scalar-elementwise']
@@ -197,9 +197,9 @@ def pair(rng, relation):
 
 def in_unit(R, wave_nm, value, unit, valueunit=None):
     f = sm.wave_factor('nm', unit)
-    v = np.array(value, float)
+    v = np.array(value)              # keeps an integer dtype when the caller supplied one
     if valueunit is not None:
-        v = v / f
+        v = v.astype(float) / f
     return R.Spectrum(np.array(wave_nm, float) * f, v, waveunit=unit, valueunit=valueunit)
 
 
@@ -219,9 +219,12 @@ def workload(ctx, lentil):
         method = 'linear' if rng.random() < 0.75 else ['quadratic', 'cubic'][int(rng.integers(0, 2))]
         deg = {'linear': 1, 'quadratic': 2, 'cubic': 3}[method]
         if method != 'linear':
-            # polynomial operands of degree <= the spline order (reproduced exactly by the spline)
-            wa = make_grid(rng, a0, a1, max(na, deg + 2), ua)
-            wb = make_grid(rng, b0, b1, max(nb, deg + 2), ub) if not np.array_equal(wb, wa) else wa.copy()
+            # polynomial operands of degree <= the spline order (reproduced exactly by the spline); every third case uses
+            # the smallest number of samples the method admits (order + 1)
+            mina = deg + 1 if i % 3 == 0 else max(na, deg + 2)
+            minb = deg + 1 if i % 3 == 1 else max(nb, deg + 2)
+            wa = make_grid(rng, a0, a1, mina, ua)
+            wb = make_grid(rng, b0, b1, minb, ub) if not np.array_equal(wb, wa) else wa.copy()
             pa = rng.normal(size=deg + 1) * 10.0 ** (-2 * np.arange(deg, -1, -1))
             pb = rng.normal(size=deg + 1) * 10.0 ** (-2 * np.arange(deg, -1, -1))
             fa = lambda x, p=pa, c=(a0 + a1) / 2: np.polyval(p, x - c) + 3
@@ -232,6 +235,11 @@ def workload(ctx, lentil):
             vb = rng.uniform(0.1, 2, size=len(wb))
             if rng.random() < 0.2:
                 vb[int(rng.integers(0, len(vb)))] = 0.0
+            if i % 5 == 4:
+                # integer-typed value arrays (a hand-typed filter such as [0, 1, 1, 0]) are legal operands
+                va = rng.integers(0, 4, size=len(wa))
+                vb = rng.integers(1, 4, size=len(wb))
+                ctx.bucket('values:integer')
         opn = list(OPS)[int(rng.integers(0, 5))]
         smp = ['min', 'min', 'left', 'right', 'float'][int(rng.integers(0, 5))]
         sampling = smp if smp != 'float' else float(rng.uniform(0.5, 60))
